@@ -2,3 +2,4 @@ import OsmoVerif.Audit
 import OsmoVerif.Props.C12
 import OsmoVerif.Props.C13
 import OsmoVerif.Props.C14
+import OsmoVerif.Props.C18
